@@ -15,7 +15,7 @@ typedef struct c09_inst {
     unsigned bits;       /* PACK_STORAGE_BITS                               */
     unsigned slotBytes;  /* sizeof(PACK_STORAGE_SLOT_STORAGE_TYPE)          */
     unsigned compact;    /* PACK_STORAGE_COMPACT defined                    */
-    unsigned maxElements; /* PACK_MAX_ELEMENTS or 0                          */
+    uint64_t maxElements; /* PACK_MAX_ELEMENTS or 0 (no limit)              */
     void (*set)(void *a, uint32_t i, uint32_t v);
     uint32_t (*get)(const void *a, uint32_t i);
     void (*insertSorted)(void *a, uint32_t len, uint32_t v);
